@@ -56,6 +56,8 @@ func c18Setup(state string) (*c18World, error) {
 		"INSERT INTO dd VALUES (1, 'one')",
 		"CREATE TABLE s8 (a int, c varchar(255))", // one leaf, one row short of its first split
 		"INSERT INTO s8 VALUES (1, 'r1'), (2, 'r2'), (3, 'r3'), (4, 'r4'), (5, 'r5'), (6, 'r6'), (7, 'r7'), (8, 'r8')",
+		"CREATE TABLE inventory_of_everything (description_of_the_item varchar(255), item_identifier_number int)", // long names
+		"INSERT INTO inventory_of_everything VALUES ('a thing', 1), ('another', 2)",
 		"CREATE TABLE z ()", // a table without columns, with two rows (if the engine lets it be)
 		"INSERT INTO z VALUES (), ()",
 	}
@@ -196,6 +198,15 @@ func c18Selects(thorough bool) []string {
 			out = append(out, fmt.Sprintf("SELECT %s FROM t GROUP BY a ORDER BY %s", it, k))
 		}
 	}
+	// long names: table, columns, aliases and the headers of aggregates over them (whatever is done with a result
+	// - formatting included - copes with names of any length)
+	long30, long100 := strings.Repeat("alias_", 5), strings.Repeat("n", 100)
+	out = append(out, "SELECT * FROM inventory_of_everything", "SELECT description_of_the_item, item_identifier_number FROM inventory_of_everything",
+		"SELECT count(inventory_of_everything.description_of_the_item), avg(inventory_of_everything.item_identifier_number) FROM inventory_of_everything",
+		"SELECT inventory_of_everything.item_identifier_number, count(*) FROM inventory_of_everything GROUP BY inventory_of_everything.item_identifier_number",
+		"SELECT description_of_the_item = 'a thing' FROM inventory_of_everything", "SELECT * FROM inventory_of_everything i JOIN t ON i.item_identifier_number = t.a",
+		"SELECT a AS "+long30+" FROM t", "SELECT count(*) AS "+long30+", avg(a) "+long30+"2 FROM t", "SELECT 1 AS "+long100, "SELECT c "+long100+" FROM t ORDER BY "+long100,
+		"SELECT a AS a_name_of_19_chars_, c AS a_name_of_18_chars, d AS a_name_of_17_char FROM t", "SELECT 'a literal that is much longer than any column of the table'", "SELECT 123456789012345678 = 123456789012345678")
 	out = append(out, "SELECT * FROM sys_pages", "SELECT * FROM sys_schema ORDER BY field_length", "SELECT count(*), table_name FROM sys_schema GROUP BY table_name",
 		"SELECT * FROM z", "SELECT count(*) FROM z", "SELECT a FROM z", "SELECT * FROM z ORDER BY a", "SELECT * FROM z LIMIT 1",
 		"SELECT d FROM t JOIN z ON 1 = 1", "SELECT a, c FROM z JOIN t ON 1 = 1", "SELECT * FROM t LEFT JOIN z ON 1 = 1", "SELECT c, d FROM t RIGHT JOIN z ON 1 = 1",
